@@ -244,7 +244,10 @@ SBuf::vappendf(const char *fmt, va_list vargs)
     Must(fmt != nullptr);
     int sz = 0;
     //reserve twice the format-string size, it's a likely heuristic
-    size_type requiredSpaceEstimate = strlen(fmt)*2;
+    // At least one byte: vsnprintf() writes a terminating NUL even for an empty
+    // format, and rawSpace(0) does not guarantee that the bytes after our
+    // content are not used by another SBuf sharing the same MemBlob.
+    size_type requiredSpaceEstimate = std::max<size_type>(1, strlen(fmt)*2);
 
     char *space = rawSpace(requiredSpaceEstimate);
     va_list ap;
